@@ -107,7 +107,7 @@ fn read_back<R: BufRead + std::fmt::Debug + Send>(cfg: &Cfg, key: &SignedSecretK
         Pattern::ReadToEnd => {
             msg.read_to_end(&mut out).map_err(|e| e.to_string())?;
         }
-        Pattern::Fixed(n) | Pattern::BufRead(n) => {
+        Pattern::Fixed(n) | Pattern::BufRead(n) | Pattern::PollOn(n) => {
             let mut buf = vec![0u8; n.max(1)];
             loop {
                 match msg.read(&mut buf) {
